@@ -57,7 +57,22 @@ class Ctx:
         return self.tier == "quick"
 
     def pick(self, quick, thorough):
-        return quick if self.quick else thorough
+        """case count for the tier; the quick tier is scaled up (never alarmed) when a function mirrored by a
+        hand-written model has a new source fingerprint (set by scale_if_changed)"""
+        if not self.quick:
+            return thorough
+        k = getattr(self, "scale", 1)
+        return min(thorough, quick * k) if isinstance(quick, int) and k > 1 and isinstance(thorough, int) else quick
+
+    def scale_if_changed(self, factor=4):
+        sys.path.insert(0, os.path.join(VERIF, "tools"))
+        import fingerprint
+        ch = fingerprint.changed(REPO)
+        self.cov["source_fingerprints_changed"] = ch
+        if ch:
+            self.scale = factor
+            self.notes.append(f"source fingerprints differ for {ch}: quick tier run at {factor}x size (no alarm by itself)")
+        return ch
 
 
 # --------------------------------------------------------------------------
